@@ -34,6 +34,8 @@ structure St where
   pending : List Emitted := []
   /-- ghost: ticks of the update messages sent to each client in its current session, oldest first -/
   sent : Nat → List Nat := fun _ => []
+  /-- ghost: the events re-emitted for the local game so far (`resend_locally`), in order -/
+  localLog : List Nat := []
 
 inductive Op where
   | spawn (e : Nat) (marked : Bool) (comps : List (Nat × Nat))
@@ -79,7 +81,7 @@ def frame (st : St) (ticked : Bool) (ms : Nat) (parts : Nat → List (List Nat))
         | some t => st.sent c ++ [t]
         | none => st.sent c
     else st.sent
-  ({ srv := s2, ev := e.1, pending := [], sent := sent' }, r.2.2, e.2.1)
+  ({ srv := s2, ev := e.1, pending := [], sent := sent', localLog := st.localLog ++ e.2.2 }, r.2.2, e.2.1)
 
 def step (st : St) : Op → St × List (Nat × ClientOut) × List Out
   | .spawn e m cs => ({ st with srv := st.srv.spawn e m cs }, [], [])
